@@ -17,7 +17,7 @@ REGIMES = [
     # (name, mean factor, sd factor, mean decays with level?, sd decays with level?)
     ("default", 0.5, 1.0, True, True),
     ("zero-variance", 0.5, 0.0, True, True),
-    ("large-variance", 0.5, 3.0, True, False),
+    ("large-variance", 0.5, 2.0, True, False),
     ("zero-mean", 0.0, 1.0, True, True),
     ("persistent-mean", 1.0, 1.0, False, True),
 ]
